@@ -25,6 +25,7 @@ type Hub struct {
 	listeners map[Listener]struct{} // listeners interested in new messages
 	opChan    chan func(h *Hub)     // operations queued for this actor
 	done      chan struct{}         // closed once the hub has shut down
+	histLen   int                   // capacity of history, immutable
 }
 
 // New constructs a new Hub which will cache historyLen messages in memory for playback to future
@@ -36,6 +37,7 @@ func New(historyLen int, extHost *extension.Host) *Hub {
 		listeners: make(map[Listener]struct{}),
 		opChan:    make(chan func(h *Hub), opChanLen),
 		done:      make(chan struct{}),
+		histLen:   historyLen,
 	}
 
 	// Register an extension event listener for MessageStored.
@@ -150,6 +152,12 @@ func (hub *Hub) Sync() {
 	case <-done:
 	case <-hub.done:
 	}
+}
+
+// HistoryLen returns the number of messages the hub retains, all of which are replayed to a
+// listener when it is added.
+func (hub *Hub) HistoryLen() int {
+	return hub.histLen
 }
 
 // enqueue hands an operation to the hub goroutine, or discards it if the hub has shut down.
